@@ -340,6 +340,11 @@ def run_inner(case, ctx):
         before_index_name = df.index.name
         kw = dict(epsilon=case['epsilon'],
                   type_checking=case['type_checking'], repair=False)
+        # the file's leading column: the frame's index labels (default), or
+        # row numbers from 1 (what the command line asks for)
+        rownumber = (case['frame']['n'] + len(case['history'])) % 3 == 0
+        if rownumber:
+            out.label('rownumber_is_index=False')
         cons_arg = copy.deepcopy(cons)
         if len(json.dumps(case['constraints'], sort_keys=True)) % 3 == 0:
             # the constraints come from a file that held another set of the
@@ -367,7 +372,8 @@ def run_inner(case, ctx):
                                      else list(o['output_fields'])),
                       index=o['index'], in_place=o['in_place'],
                       interleave=o['interleave'],
-                      boolean_ints=o['boolean_ints'], **kw)
+                      boolean_ints=o['boolean_ints'],
+                      rownumber_is_index=not rownumber, **kw)
         if not ok:
             out.violate('never-raises', v.bucket(), 'step %d (%s): %s'
                         % (step, what, v.detail()))
@@ -618,6 +624,13 @@ def check_file(out, tag, path, case, want_rows, exp_nf, flags, o):
                     '%s: file has n_failures %r, expected %r for rows %r'
                     % (tag, nf, want, want_rows))
         return
+    if 'RowNumber' in f.columns and 'RowNumber' not in [
+            c['name'] for c in case['frame']['cols']]:
+        if [int(x) for x in f['RowNumber']] != [i + 1 for i in want_rows]:
+            out.violate('output-file', 'row-numbers',
+                        '%s: RowNumber column %r, positions (from 1) of the '
+                        'rows %r' % (tag, list(f['RowNumber']),
+                                     [i + 1 for i in want_rows]))
     labels = index_labels(case.get('index_kind'), case['frame']['n'])
     if 'Index' in f.columns and [int(x) for x in f['Index']] != [
             labels[i] for i in want_rows]:
